@@ -705,6 +705,7 @@ func areaOtl(c *Ctx) {
 	}
 
 	// ---- script lists
+	otlSLArrangements(c)
 	for i := 0; i < nSL; i++ {
 		otlGenSL(c, i)
 	}
@@ -720,6 +721,7 @@ func areaOtl(c *Ctx) {
 
 	// ---- lookup lists
 	otlLLSweep(c)
+	otlLLOffsetFamily(c)
 	// the reader's budget: lookups + subtables <= 6000
 	for _, line := range []string{
 		"1/0/0/" + strings.TrimSuffix(strings.Repeat("n:2:1|", 5999), "|"),
@@ -2326,6 +2328,25 @@ func init() {
 			return "ok:" + otlShowBytes(gtab.VerifEncodeScriptList(otlParseSL(f["sl"])))
 		}))
 	}
+	// script list through the real code: Read(Encode(sl)) = sl as a set of (script, language system,
+	// required, optional features); these lists are small, so a panic of the encoder is a failure
+	ops["otl.sl.rt"] = func(f Fields) string {
+		return canonPanic(guard(func() string {
+			sl := otlParseSL(f["sl"])
+			var b []byte
+			if msg := guard(func() string { b = gtab.VerifEncodeScriptList(sl); return "" }); msg != "" {
+				return "fail:encode-panics"
+			}
+			out, err := gtab.VerifReadScriptList(b, 0)
+			if err != nil {
+				return "fail:" + errKind(err)
+			}
+			if want, got := otlShowSL(sl), otlShowSL(out); want != got {
+				return "fail:wrote[" + want + "]read[" + got + "]"
+			}
+			return "ok"
+		}))
+	}
 	ops["otl.sl.read"] = func(f Fields) string {
 		return canonPanic(guard(func() string {
 			sl, err := gtab.VerifReadScriptList(f.Hex("data"), 0)
@@ -2438,6 +2459,9 @@ func otlGenSL(c *Ctx, i int) {
 	line := "sl=" + strings.Join(parts, ",")
 	out := c.Case(Verdict, "otl.sl.encode", line, len(parts) >= 2)
 	c.Stat("sl.encode-outcome", outcomeClass(out))
+	if what == "regular" {
+		c.Case(Direct, "otl.sl.rt", line, len(parts) >= 2)
+	}
 	if !strings.HasPrefix(out, "ok:") {
 		return
 	}
@@ -2450,6 +2474,112 @@ func otlGenSL(c *Ctx, i int) {
 			c.Stat("sl.mutation", mw)
 			o := c.Case(Verdict, "otl.sl.read", "data="+hx(m), true)
 			c.Stat("sl.read-outcome", "mutated:"+outcomeClass(o))
+		}
+	}
+}
+
+// otlSLArrangements: every arrangement of scripts with / without a default language system
+// (D: default only, L: named language systems only, B: both), up to three scripts in tag order
+func otlSLArrangements(c *Ctx) {
+	otlInitTags()
+	// a named language system that round-trips for each script
+	langOf := map[string][]string{}
+	for _, sc := range []string{"arab", "cyrl", "latn"} {
+		for _, p := range otlTagPairs {
+			if p[1] == "" {
+				continue
+			}
+			if tag, err := gtab.VerifOtfToBCP47(sc, p[1]); err == nil {
+				if s2, l2, err := gtab.VerifBCP47ToOtf(tag); err == nil && s2 == sc && l2 == p[1] {
+					langOf[sc] = append(langOf[sc], p[1])
+					if len(langOf[sc]) == 2 {
+						break
+					}
+				}
+			}
+		}
+	}
+	n := 0
+	entry := func(sc, lang string) string {
+		n++
+		lg := "-"
+		if lang != "" {
+			lg = hx([]byte(lang))
+		}
+		return fmt.Sprintf("%s:%s:%d:%d.%d", hx([]byte(sc)), lg, []int{65535, n}[n%2], n, n+1)
+	}
+	scripts := []string{"arab", "cyrl", "latn"}
+	var shapes []string
+	for _, a := range "DLB" {
+		shapes = append(shapes, string(a))
+		for _, b := range "DLB" {
+			shapes = append(shapes, string(a)+string(b))
+			for _, d := range "DLB" {
+				shapes = append(shapes, string(a)+string(b)+string(d))
+			}
+		}
+	}
+	for _, shape := range shapes {
+		var parts []string
+		okShape := true
+		for k, ch := range shape {
+			sc := scripts[k]
+			if ch != 'D' && len(langOf[sc]) == 0 {
+				okShape = false
+				break
+			}
+			if ch == 'D' || ch == 'B' {
+				parts = append(parts, entry(sc, ""))
+			}
+			if ch == 'L' || ch == 'B' {
+				for _, l := range langOf[sc] {
+					parts = append(parts, entry(sc, l))
+				}
+			}
+		}
+		if !okShape {
+			continue
+		}
+		line := "sl=" + strings.Join(parts, ",")
+		out := c.Case(Verdict, "otl.sl.encode", line, true)
+		c.Stat("sl.arrangement", outcomeClass(out))
+		c.Case(Direct, "otl.sl.rt", line, true)
+		if strings.HasPrefix(out, "ok:") {
+			b := gtab.VerifEncodeScriptList(otlParseSL(strings.TrimPrefix(line, "sl=")))
+			c.Case(Verdict, "otl.sl.read", "data="+hx(b), true)
+		}
+	}
+}
+
+// otlLLOffsetFamily: the offset of the second (third) LOOKUP table in the lookup list is exactly
+// 65534 ... 65538: from 65536 on the encoder has to reorder (the first lookup is moved to the end)
+func otlLLOffsetFamily(c *Ctx) {
+	for off := 65533; off <= 65538; off++ {
+		for _, three := range []bool{false, true} {
+			// [big, small]: header 2+2*2, big = 8 + v   |  [tiny, big, small]: header 2+2*3, tiny = 8+2
+			v := off - (2 + 4) - 8
+			line := fmt.Sprintf("2/0/0/n:%d:%d;1/0/0/g:5:3", v, off%251)
+			if three {
+				v = off - (2 + 6) - 10 - 8
+				line = fmt.Sprintf("3/0/0/n:2:1;2/0/0/n:%d:%d;1/16/4/g:5:3", v, off%251)
+			}
+			out := c.Case(Verdict, "otl.ll.encode", "ll="+line, true)
+			what := outcomeClass(out)
+			if strings.HasPrefix(out, "ok:") {
+				ll, _ := otlParseLL(line)
+				b := gtab.VerifEncodeLookupList(ll)
+				c.Case(Direct, "otl.ll.prop", fmt.Sprintf("ll=%s ext=7 sum=%s", line, otlShowBytes(b)), true)
+				last := len(ll) - 1
+				got := int(b[2+2*last])<<8 | int(b[3+2*last])
+				if off <= 0xFFFF && got == off {
+					what = "ok:in-place"
+				} else if off > 0xFFFF && got != 0 && got < 100 {
+					what = "ok:reordered"
+				} else {
+					what = fmt.Sprintf("ok:UNEXPECTED-offset-%d", got)
+				}
+			}
+			c.Stat("ll.lookup-offset", fmt.Sprintf("%d:%s", off, what))
 		}
 	}
 }
